@@ -543,7 +543,7 @@ func init() {
 		Level:       "exploration",
 		Rule:        "case = one free-running run (race detector build, Observer installed) of a producer goroutine (150-500 events quick / 500-3000 thorough, sizes from the boundary table and random, 1-3 Write chunks, PRNG Flush calls, retry on full) and a consumer goroutine (Begin, Next/Read with partial reads in PRNG batches, Done, ACK of PRNG prefixes of what was read) on one queue, on unbounded and nearly-full bounded files, with PRNG yields injected at the commit hook points of both write transactions (flush and ACK); both sides compute event i independently from (seed,i); oracle = consumer receives exactly event 0,1,2,... byte-identical (FIFO, no loss/dup), every ACK succeeds, all events arrive after the producer's final flush, Pending==0 and callback totals == N at the end, lock state idle, state-based deadlock detector, race detector; every 4th case instead runs the cooperative scheduler on a producer actor (4-7 events around page boundaries, two Write chunks each, flush every 1-3 events) and a consumer actor (read with the transaction kept open across yield points, ACK batches): all schedules with <=2 (quick) / <=3 (thorough) preemptions at step boundaries and lock-adjacent hook points of the flush/ACK transactions are enumerated up to a budget, same FIFO/ACK/Pending oracles, deadlock = no enabled actor; distinct = (N, page size, bounded, #interleaving points); non-trivial = >=50 events consumed",
 		Assumptions: append([]string{"interleavings are sampled (Go scheduler + injected yields); evidence lists the (actor step @ other actor's commit point) pairs observed"}, qAssumptions[0], qAssumptions[2]),
-		NumCases:    func(t string) int { return tierN(t, 64, 2500) },
+		NumCases:    func(t string) int { return tierN(t, 64, 1000) },
 		Race:        func(t string, i int) bool { return i%4 != 3 }, // scheduler cases are deterministic: plain build
 		CaseTimeout: func(t string) time.Duration {
 			if t == "thorough" {
